@@ -37,11 +37,15 @@ impl<T: ArrivalBound + Clone + 'static> ArrivalBound for Propagated<T> {
     }
 
     fn steps_iter<'a>(&'a self) -> Box<dyn Iterator<Item = Duration> + 'a> {
+        let mut input_steps = self.input_event_model.steps_iter().peekable();
+        if input_steps.peek().is_none() {
+            // nothing ever arrives, so there are no steps to shift
+            return Box::new(iter::empty());
+        }
         Box::new(
             iter::once(Duration::from(1)).chain(
                 // shift the steps of the input event model earlier by the jitter amount
-                self.input_event_model
-                    .steps_iter()
+                input_steps
                     .filter(move |x| *x > self.response_time_jitter + Duration::from(1))
                     .map(move |x| x - self.response_time_jitter),
             ),
